@@ -115,12 +115,52 @@ def make_op(name, params, dagger=False):
 
 
 def build_program(spec, name="p"):
+    """Commands may include the pseudo-operations ["New", [], [k], False] (allocate one mode, which gets index k)
+    and ["Del", [], [m], False]."""
     prog = sf.Program(spec["n"], name=name)
     with prog.context as q:
+        regs = list(q)
         for name_, params, modes, dagger in spec["cmds"]:
+            if name_ == "New":
+                (r,) = ops.New(1)
+                assert r.ind == modes[0] == len(regs), (r.ind, modes, len(regs))
+                regs.append(r)
+                continue
+            if name_ == "Del":
+                ops.Del | regs[modes[0]]
+                continue
             op = make_op(name_, params, dagger)
-            op | tuple(q[m] for m in modes)
+            op | tuple(regs[m] for m in modes)
     return prog
+
+
+def random_history_spec(rng, names, n0=None, ncmds=None, max_total=4, p_new=0.15, p_del=0.12, dagger_prob=0.2, cmd_fn=None):
+    """A program in which modes are created and deleted along the way. Returns a spec whose commands use the
+    external (lifetime) mode indices; spec["live"] lists the live indices at the end."""
+    n0 = n0 or rng.randint(1, min(3, max_total))
+    ncmds = ncmds if ncmds is not None else rng.randint(2, 9)
+    live = list(range(n0))
+    total = n0
+    cmds = []
+    for _ in range(ncmds):
+        r = rng.random()
+        if r < p_new and total < max_total + 2 and len(live) < max_total:
+            cmds.append(["New", [], [total], False])
+            live.append(total)
+            total += 1
+            continue
+        if r < p_new + p_del and len(live) > 1:
+            m = rng.choice(live)
+            live.remove(m)
+            cmds.append(["Del", [], [m], False])
+            continue
+        avail = [x for x in names if ALL[x][0] <= len(live)]
+        if not avail:
+            continue
+        c = (cmd_fn or random_cmd)(rng, len(live), avail) if cmd_fn else random_cmd(rng, len(live), avail, dagger_prob)
+        c[2] = [live[i] for i in c[2]]  # positions -> external indices
+        cmds.append(c)
+    return {"n": n0, "cmds": cmds, "live": list(live), "total": total}
 
 
 def spec_of_program(prog):
